@@ -2,6 +2,7 @@
     inverse covariance and determinant. *)
 From Coq Require Import Reals List ZArith Lra Lia Bool Arith QArith.
 From Compute Require Import Base.Ops Base.ListMat Model.Reduce Model.MatMul Model.MVN Spec.MatMul Proofs.C05 Proofs.C02.
+From Compute Require Model.Subst Proofs.C11_Pred.
 Import ListNotations.
 Open Scope R_scope.
 
@@ -189,14 +190,12 @@ Lemma mvn_example :
   mvn_pdf RO cov {| nr := 2; nc := 2; dat := [2; 0; 0; 1 / 2] |} 1 [1; 1] [2; 3] = Some (exp (- 2) / (2 * PI)).
 Proof.
   assert (Hpd : is_positive_definite RO {| nr := 2; nc := 2; dat := [1 / 2; 0; 0; 2] |} = true).
-  { unfold is_positive_definite, is_symmetric, f64_epsilon. cbn [nr nc dat Nat.eqb seq forallb nth Nat.mul Nat.add Nat.sub andb].
-    cbn [ltb leb abs sub zero RO ofQ]. unfold Rltb, Rleb.
-    assert (He : 0 < Q2R (1 # 4503599627370496)) by (unfold Q2R; cbn; lra).
-    repeat match goal with
-           | |- context [Rlt_dec ?a (Rabs ?b)] => replace b with 0 by lra; rewrite Rabs_R0;
-               destruct (Rlt_dec a 0); [exfalso; lra|]
-           | |- context [Rle_dec ?a ?b] => destruct (Rle_dec a b); [exfalso; lra|]
-           end. reflexivity. }
+  { unfold is_positive_definite, Model.Subst.matrix_is_positive_definite, Model.Subst.matrix_is_symmetric, Model.Subst.mrows.
+    cbn [nr nc dat Nat.eqb andb].
+    rewrite (Proofs.C11_Pred.is_symmetric_rows_exact _ 2).
+    - cbn [andb]. apply Proofs.C11_Pred.diag_positive_rows_true.
+      intros [|[|i]] Hi; [| |lia]; unfold ent, unflatten, row_of; cbn; lra.
+    - intros [|[|i]] [|[|j]] Hi Hj; try lia; unfold ent, unflatten, row_of; cbn; reflexivity. }
   split; [exact Hpd|].
   rewrite (mvn_pdf_textbook 2 _ [2; 0; 0; 1 / 2] [1; 1] [2; 3] 1) by (try reflexivity; try lia; exact Hpd).
   f_equal. unfold quad_spec, Rsum. cbn [seq map fold_right nth Nat.mul Nat.add].
